@@ -192,6 +192,60 @@ CHECKS.update({
         design="Part II C04"),
 })
 
+
+CHECKS.update({
+    "C06": dict(
+        text=("Coq theorems over labelled transition systems of both drivers (walker, dispatcher, bounded pool queue, W pool "
+              "workers, Arc reference count / walker, W workers) whose reachable relation contains EVERY interleaving, for any "
+              "W, Q >= 1 and any operation list: at the end every copied file was opened once, received each of its blocks "
+              "exactly once in some order, was finalised once after all of them, and nothing else touched it; every inline "
+              "operation happened once; the two drivers agree; metadata never precedes a write in any prefix. The same "
+              "executable automaton (ConcOutcome.phase_of / history_ok) judges, inside Coq, the projected supervisor traces of "
+              "the real xcp under random thread holding, 1..64 workers, both drivers, kernel copy available or not; the direct "
+              "oracle compares exit status and the full destination snapshot of every schedule with a reference run and "
+              "checks directory-before-child and no-write-after-finalise on the trace."),
+        note=("protocol model: crossbeam channels are FIFO and linearizable, the thread pool runs queued jobs once, Arc drops "
+              "run finalisation at count 0 (trusted libraries, validated by the traces). Block writes of one file commute "
+              "because they are aligned and disjoint (C01). Hypothesis Independent: distinct sources map to distinct targets."),
+        technique="Coq proof over interleaving LTS of both drivers + schedule exploration under ptrace judged by the Coq automaton",
+        design="Part II C06"),
+    "C07": dict(
+        text=("Coq theorems over ConcFault.v, an LTS of every thread of a run (main's update loop, the driver's joins, walker, "
+              "dispatcher, bounded pool queue, pool / parfile workers) with FAILURES as labels: for every interleaving and "
+              "every number and placement of failing steps, any W, Q >= 1, no reachable state is stuck before main has "
+              "exited, every step strictly decreases a measure bounded by the workload (no spin, bounded executions), exit 0 "
+              "only when nothing failed and all work is done; the kernel-call loops of one operation are bounded for every "
+              "answer sequence. The check validates the model's assumptions on the real binary: large trees (> 1024 entries "
+              "after the fault), faults in each thread, all parfile workers killed, 1/4/64 workers, FIFOs/sockets never "
+              "opened, library entry points (copy() returns, channel closes), block_size 0, empty trees; a run exceeding the "
+              "wall-clock bound is the violation."),
+        note=("termination of each system call, OS scheduler fairness and finitely many EINTR are outside the theorem; "
+              "unboundedness of the operation and status channels is a modelled fact that the large-tree fault runs validate."),
+        technique="Coq proof (deadlock freedom + decreasing measure on a fault-labelled LTS) + fault-injected runs with a wall-clock bound",
+        design="Part II C07"),
+    "C18": dict(
+        text=("Coq theorems: within one copy operation fsync - exactly one when requested, none otherwise - is the last action, "
+              "after every sizing/clone/data action; under EVERY interleaving of both drivers finalisation of a file happens "
+              "exactly once, after every block write of that file, before the final state (also for zero-length and cloned "
+              "files), and no handle survives. On real traces (random thread holds, 1..16 workers, multi-block / empty / "
+              "all-hole / hole-edged files, kernel copy available or not) the oracle requires an fsync entered after the exit "
+              "of the file's last data or size call and returned before exit; per-file action sequences are compared with "
+              "Ops.copy_actions and histories judged by ConcOutcome.history_ok."),
+        note="ordering of system calls only; durability itself is the kernel's. A failing fsync is C04's known finding F-04.",
+        technique="Coq proof (action order + protocol invariant) + trace oracle under schedule exploration",
+        design="Part II C18"),
+    "C20": dict(
+        text=("Coq invariant over every reachable state of the parblock LTS: open handles <= Q + W + 1 for any number of "
+              "files (holders = queued jobs, running jobs, the dispatcher); parfile <= W; with Q = 128, W <= 64 this is below "
+              "the default limit of 1024 descriptors. The supervisor holds all pool workers until the program is quiescent; the "
+              "descriptors open at that moment must EQUAL twice the handles of the model run in the same situation (ties Q = "
+              "128 to the source) for 300 / 1500 files and multi-block files; peaks must not grow with the tree; 3000-file "
+              "(thorough 30000) trees must copy under RLIMIT_NOFILE=1024 with up to 64 workers."),
+        note="walkdir's bound on open directories (10) and the descriptor cost of stdio/progress are constants taken from documentation.",
+        technique="Coq invariant proof on the driver LTS + measured descriptor peak with held workers vs the model's state",
+        design="Part II C20"),
+})
+
 NOT_YET = {}
 
 def main():
